@@ -303,6 +303,28 @@ theorem checkpoint_corruption_detected {σ : Type} (crc : Bytes → Nat) (de : B
   · exact chk_err_of_footer_crc crc de data h
   · exact chk_err_of_data_crc crc de data h
 
+/-! ## length fields are 32-bit values: no bound test wraps -/
+
+/-- `WalEntry::decode`: the size test the current code performs (checked `usize` add of the
+    16-byte overhead and the `u32` length) rejects exactly when `16 + len > remaining` -/
+theorem wal_decode_total_no_wrap (remaining len : Nat) (hl : len < 2 ^ 32) :
+    sizeTest .usizeChecked overhead remaining len
+      = if remaining < overhead + len then .reject else .slice (overhead + len) :=
+  C10.decode_total_no_wrap remaining len hl
+
+/-- `DeltaIterator::next` (`offset + 4`, `offset + len`) and `CheckpointReader::validate`
+    (`data_start + data_len`, `footer_start + 16`): plain `usize` additions of an offset below
+    `2^63` and a 32-bit length never wrap, so the model's unbounded comparison is the code's -/
+theorem record_bounds_no_wrap (offset remaining len : Nat) (ho : offset < 2 ^ 63) (hl : len < 2 ^ 32) :
+    sizeTest .usizeWrapping offset remaining len
+      = if remaining < offset + len then .reject else .slice (offset + len) :=
+  C10.size_test_no_wrap .usizeWrapping (by decide) offset remaining len ho hl
+
+/-- 32-bit wrapping arithmetic accepts an erased-flash length and then slices out of range -/
+theorem wal_size_wrap_counterexample :
+    sizeTest .u32Wrapping overhead 16 0xFFFFFFF0 = .crash ∧
+    sizeTest .usizeChecked overhead 16 0xFFFFFFF0 = .reject := by decide
+
 /-! ## WAL entry -/
 
 /-- `to_delta(decode(encode(from_delta(d, ts)))) = d`, followed by anything (both formats) -/
